@@ -20,10 +20,22 @@ def gen_case(seed, i, engine, n_clients):
 def check(rep, tier, seed):
     n, n_clients = (45, 4) if tier == "quick" else (1500, 6)
     cases = [gen_case(seed, i, ENGINES[i % 3], n_clients if i % 2 else 3) for i in range(n)]
+    # the retry loop's rewrites also allocate revisions that must be resolved (every repair outcome)
+    from . import c09
+    pl = c09.placements()
+    rcases = [c09.gen_case(seed, 5000 + i, ENGINES[i % 3], pl[(i * 7) % len(pl)]) for i in range(9 if tier == "quick" else 126)]
+    for c in rcases:
+        c.meta["retry"] = True
+    cases += rcases
     core.run_cases(cases)
     for c in cases:
         rep.count_case(c)
-        hit = sched.oracle_c04(c)
+        if c.meta.get("retry"):
+            hit = c09.oracle(c)
+            if hit and hit[1] != "stalled":
+                hit = None
+        else:
+            hit = sched.oracle_c04(c)
         if hit:
             if core.handle_oracle_hit(rep, "C04", hit[1], c, hit[0], hit[1]):
                 return
